@@ -1,10 +1,16 @@
 (* C18 — executable model of the subprocess output adapter and of Execute / Output.
-   Mirrors utils/subprocess/logging.go (logStreamer: Write, Flush, logPending, flushWriter; AFTER the fix
-   "subprocess output lines are no longer split across pipe reads": the unterminated tail of a chunk is carried over to
-   the next Write and flushed once the command has finished), command_wrapper.go (cmdWrapper.Run :53-62,
-   flushOutput, ConvertCommandError), proc/errors.go (ConvertProcessError :25-50), messaging.go (LogStart :31-35,
-   LogEnd :59-68) and executor.go (Execute :240-270, OutputAsWithEnvironment :103-124).
+   Mirrors, in the repaired tree (fixes "subprocess output lines are no longer split across pipe reads" and "Execute
+   reports a context error when the command was interrupted by its context"):
+     utils/subprocess/logging.go          logStreamer.Write :32-46, Flush :48-52, logPending :54-65, flushWriter :78-82
+     utils/subprocess/command_wrapper.go  cmdWrapper.Run :53-62, flushOutput :88-93, createCommand :121-130 (one adapter
+                                          per stream), ConvertCommandError :173
+     utils/proc/errors.go                 ConvertProcessError :25-50
+     utils/subprocess/messaging.go        LogStart :31-35, LogEnd :59-68
+     utils/subprocess/executor.go         Execute :241-272, OutputAsWithEnvironment :104-125.
    Bytes are [Z]; a stream is the list of chunks the adapter's Write receives (the successive reads of the pipe).
+   Assumed (validated by the correspondence runs, not proved): the pipe hands the child's bytes of one stream to that
+   stream's adapter in order, each exactly once, and all of it before exec.Cmd.Run returns; the two streams are
+   delivered by two goroutines in an arbitrary interleaving (the model takes the interleaving as an input).
    Definitions only; proofs are in Proofs.v. *)
 From Coq Require Import List ZArith Bool.
 Import ListNotations.
@@ -65,7 +71,7 @@ Fixpoint write_stream (pend : bytes) (chunks : list bytes) : list bytes * bytes 
 Definition stream_log (chunks : list bytes) : list bytes :=
   let '(o, p) := write_stream [] chunks in o ++ flush p.
 
-(* The adapter BEFORE the fix (logging.go:26-39 at d1d73b93): every chunk split and logged on its own, nothing carried.
+(* The adapter BEFORE the fix (logging.go:26-39 at bc1ce85a): every chunk split and logged on its own, nothing carried.
    Kept only to document why the carry-over is needed (Props.v: unbuffered_adapter_refuted). *)
 Definition write_chunk_nocarry (p : bytes) : list bytes := filter nonempty (split_nl p).
 Definition stream_log_nocarry (chunks : list bytes) : list bytes := flat_map write_chunk_nocarry chunks.
